@@ -55,6 +55,8 @@ pub enum PKind {
     Content,
     /// unsigned property holding the final position of another entry (deferred value)
     RefTo,
+    /// the same reference kept in a SIGNED column, handed over as a closure word (`Value::SignedWord`) reading the handle
+    RefToS,
 }
 
 /// How the values of one column are drawn (pure function of seed, entry number, column).
@@ -218,6 +220,7 @@ fn pdef_to_json(p: &PDef) -> Value {
         PKind::Array { prefix, store } => json!({"array": [prefix, store]}),
         PKind::Content => json!("content"),
         PKind::RefTo => json!("ref"),
+        PKind::RefToS => json!("sref"),
     };
     json!({"name": p.name, "kind": kind, "col": col_to_json(&p.col)})
 }
@@ -229,6 +232,7 @@ fn pdef_from_json(v: &Value) -> PDef {
             "sint" => PKind::SInt,
             "content" => PKind::Content,
             "ref" => PKind::RefTo,
+            "sref" => PKind::RefToS,
             _ => PKind::UInt,
         }
     } else if let Some(a) = k.get("array").and_then(|x| x.as_array()) {
@@ -423,7 +427,8 @@ pub fn expand(case: &DirCase, si: usize) -> Vec<EntryModel> {
                 // the root (first inserted) holds the plain value 0 instead of a deferred reference to itself: the column
                 // mixes immediate and deferred values, which the writer's sort has to compare with one another
                 (PKind::RefTo, Col::Tree(_)) if e == 0 => Val::U(0),
-                (PKind::RefTo, Col::Tree(b)) => Val::Ref(tree_dfs(n, *b as usize)[e].0),
+                (PKind::RefToS, Col::Tree(_)) if e == 0 => Val::S(0),
+                (PKind::RefTo | PKind::RefToS, Col::Tree(b)) => Val::Ref(tree_dfs(n, *b as usize)[e].0),
                 (PKind::UInt, Col::Const) => Val::U(cval_u),
                 (PKind::UInt, Col::Small) => Val::U(rng.below(200)),
                 (PKind::UInt, Col::Width(w)) => Val::U(uint_of_width(&mut rng, *w)),
@@ -475,7 +480,7 @@ pub fn expand(case: &DirCase, si: usize) -> Vec<EntryModel> {
                     Val::C(pk, cid)
                 }
                 (PKind::Content, _) => Val::C(1, rng.below(1000) as u32),
-                (PKind::RefTo, Col::RefPat(pat)) => Val::Ref(match pat {
+                (PKind::RefTo | PKind::RefToS, Col::RefPat(pat)) => Val::Ref(match pat {
                     RefPat::Next => (e + 1) % n,
                     RefPat::Prev => (e + n - 1) % n,
                     RefPat::Self_ => e,
@@ -483,7 +488,7 @@ pub fn expand(case: &DirCase, si: usize) -> Vec<EntryModel> {
                     RefPat::AllToOne => n / 2,
                     RefPat::Random => rng.usize_below(n),
                 }),
-                (PKind::RefTo, _) => Val::Ref(rng.usize_below(n)),
+                (PKind::RefTo | PKind::RefToS, _) => Val::Ref(rng.usize_below(n)),
             };
             entries[e].vals.insert(p.name.clone(), val);
         }
@@ -593,6 +598,7 @@ fn make_prop(p: &PDef, vstores: &[jbk::creator::StoreHandle]) -> schema::Propert
     let name = leak(&p.name);
     match &p.kind {
         PKind::UInt | PKind::RefTo => schema::Property::new_uint(name),
+        PKind::RefToS => schema::Property::new_sint(name),
         PKind::SInt => schema::Property::new_sint(name),
         PKind::Array { prefix, store } => schema::Property::new_array(*prefix as usize, vstores[*store].clone(), name),
         PKind::Content => schema::Property::new_content_address(name),
@@ -636,6 +642,12 @@ pub fn build(case: &DirCase) -> Built {
                     Val::S(x) => jbk::Value::Signed(*x),
                     Val::A(a) => jbk::Value::Array(a.as_slice().into()),
                     Val::C(pk, c) => jbk::Value::Content(jbk::ContentAddress::new(jbk::PackId::from(*pk), jbk::ContentIdx::from(*c))),
+                    Val::Ref(t) if p.kind == PKind::RefToS => {
+                        // a closure reading the target's handle when the value is needed
+                        let b = binds[*t].clone();
+                        let f: Box<dyn Fn() -> i64 + Sync + Send> = Box::new(move || b.get().into_u32() as i64);
+                        jbk::Value::SignedWord(f.into())
+                    }
                     Val::Ref(t) => jbk::Value::UnsignedWord(binds[*t].clone().into()),
                 };
                 values.insert(name, v);
@@ -649,6 +661,16 @@ pub fn build(case: &DirCase) -> Built {
         models.push(model);
     }
     Built { value_stores, entry_stores, handles, models }
+}
+
+/// What a reference to the entry that ends up at position `pos` reads back as, in property `name` of store `st`.
+pub fn resolved_ref(st: &StoreDef, name: &str, pos: usize) -> Val {
+    let signed = st.common.iter().chain(st.variants.iter().flat_map(|v| v.props.iter())).any(|p| p.name == name && p.kind == PKind::RefToS);
+    if signed {
+        Val::S(pos as i64)
+    } else {
+        Val::U(pos as u64)
+    }
 }
 
 /// Is the integer value of property `name` of entry `e` (insertion order) of store `si` handed over as a deferred word?
@@ -688,7 +710,7 @@ pub fn install(case: &DirCase, built: Built, creator: &mut jbk::creator::Directo
         let st = &case.stores[ix.store];
         let predictable = match &st.sort {
             None => true,
-            Some(keys) => st.unique_keys && keys.iter().all(|k| st.common.iter().any(|p| &p.name == k && !matches!(p.kind, PKind::RefTo))),
+            Some(keys) => st.unique_keys && keys.iter().all(|k| st.common.iter().any(|p| &p.name == k && !matches!(p.kind, PKind::RefTo | PKind::RefToS))),
         };
         let by_handle = case.free != 0 && predictable && (ix.offset as usize) < st.n && free_bytes(case.free, &format!("offset:{}", ix.name), 1)[0] & 1 == 1;
         let (free, key, count) = (index_free(case, &ix.name), jbk::PropertyIdx::from(index_key(case, ix)), jbk::EntryCount::from(ix.count));
@@ -909,9 +931,9 @@ pub fn observe(case: &DirCase, out: &mut CaseOut) {
                     format!("arr{}{}", prefix, if case.vstores[*store] { "i" } else { "p" })
                 }
                 PKind::Content => "content".to_string(),
-                PKind::RefTo => {
+                PKind::RefTo | PKind::RefToS => {
                     has_variant_or_ref = true;
-                    "ref".to_string()
+                    if p.kind == PKind::RefToS { "sref".to_string() } else { "ref".to_string() }
                 }
             };
             out.obs.inc(&format!("columns.{}", k.trim_end_matches(char::is_numeric)));
